@@ -75,6 +75,17 @@ Definition C15_sorted_stmt (v : variant) : Prop :=
 Theorem C15_sorted : forall v, C15_sorted_stmt v.
 Proof. exact P_sorted. Qed.
 
+(* Reading of "a group is reported ESTABLISHED only when every one of its sockets holds synchronised
+   data".  rtr_mgr_cb re-announces the UNCHANGED status of a group on every other socket event
+   (`set_status(config, group, group->status, sock)` in the default arm and in the SHUTDOWN
+   handler), so an ESTABLISHED group is re-reported ESTABLISHED while one of its sockets is in
+   FAST_RECONNECT / ERROR_NO_INCR_UPDATE_AVAIL or is just being shut down.  Those re-reports are
+   by design and carry no new claim; the clause is therefore stated in two parts:
+   (1) the report by which a group BECOMES ESTABLISHED is issued only when every socket passes the
+       test of rtr_mgr_config_status_is_synced (last_update != 0, state ESTABLISHED/RESET/SYNC);
+   (2) no group is ever LEFT ESTABLISHED with a stopped socket (rtr_stop removes the socket's
+       records) - this part is false for the shipped code, see below.                          *)
+
 (* ---- a group BECOMES reported ESTABLISHED (it was not ESTABLISHED before the operation)
         only when, at the moment of the report, every one of its sockets has last_update != 0
         and is in ESTABLISHED, RESET or SYNC ------------------------------------------- *)
